@@ -13,28 +13,7 @@ open Rare.C19.Pool
 
 variable {α : Type} (A : Arith α)
 
-/-- The look-up an atom stands for. -/
-def Atom.vars : Atom α → List Var
-  | .num _ => []
-  | .named n => [.named n]
-  | .idx i => [.idx i]
-
-/-- The variable occurrences of a parse tree, left to right (groups entered). -/
-def Tree.vars (cls : Bytes → Option (Atom α)) : Tree → List Var
-  | .lit v => match cls v with
-    | some a => a.vars
-    | none => []
-  | .grp _ e => e.vars cls
-  | .un _ e => e.vars cls
-  | .bin _ _ l r => l.vars cls ++ r.vars cls
-
-/-- `Pool.lookups` for any arithmetic. -/
-def Expr.vars : Expr α → List Var
-  | .val _ => []
-  | .named n => [.named n]
-  | .idx i => [.idx i]
-  | .un _ e => e.vars
-  | .bin _ l r => l.vars ++ r.vars
+/- `Atom.vars`, `Tree.vars`, `Expr.vars` are defined in `Model/C19Pool.lean` (the driver's `look` op prints them). -/
 
 theorem lookups_eq_vars (e : Expr F64) : lookups e = e.vars := by
   induction e with
